@@ -252,10 +252,52 @@ package builder
 // C02 / C08: every shard block carries its bitmap in the UnixFS Data field, also when no bucket is
 // occupied (the reader refuses a shard without it).
 //@ func data/builder.Data
-//@ prop C02
+//@ prop C02 C09
+//@ at call github.com/ipld/go-ipld-prime/fluent/qp.MapEntry#1 assert sets-the-Data-field: callee_k == "Data"
+//@ at call github.com/ipld/go-ipld-prime/fluent/qp.Bytes#1 assert with-the-bytes-given: callee_p == dataBytes
 //@ at return ghost hasData(b) = true
 //@ ensures data-field-is-set: hasData(b)
 //@ func (*data/builder.shard).serialize$1
 //@ prop C02 C08
 //@ may_panic
 //@ ensures shard-block-carries-its-bitmap: hasData(b)
+
+// C09 (encode side) / C11: each setter of the UnixFS message builder assembles exactly one entry,
+// under the schema's field name, with the value it was given (Permissions: its low twelve bits).
+//@ func data/builder.DataType
+//@ prop C09 C11
+//@ may_panic
+//@ at call github.com/ipld/go-ipld-prime/fluent/qp.MapEntry#1 assert sets-the-DataType-field: callee_k == "DataType"
+//@ at call github.com/ipld/go-ipld-prime/fluent/qp.Int#1 assert with-the-value-given: callee_i == dataType
+//@ func data/builder.FileSize
+//@ prop C09 C11
+//@ at call github.com/ipld/go-ipld-prime/fluent/qp.MapEntry#1 assert sets-the-FileSize-field: callee_k == "FileSize"
+//@ at call github.com/ipld/go-ipld-prime/fluent/qp.Int#1 assert with-the-value-given: callee_i == int64(fileSize)
+//@ func data/builder.HashType
+//@ prop C09 C11
+//@ at call github.com/ipld/go-ipld-prime/fluent/qp.MapEntry#1 assert sets-the-HashType-field: callee_k == "HashType"
+//@ at call github.com/ipld/go-ipld-prime/fluent/qp.Int#1 assert with-the-value-given: callee_i == int64(hashType)
+//@ func data/builder.Fanout
+//@ prop C09 C11
+//@ at call github.com/ipld/go-ipld-prime/fluent/qp.MapEntry#1 assert sets-the-Fanout-field: callee_k == "Fanout"
+//@ at call github.com/ipld/go-ipld-prime/fluent/qp.Int#1 assert with-the-value-given: callee_i == int64(fanout)
+//@ func data/builder.Seconds
+//@ prop C09 C11
+//@ at call github.com/ipld/go-ipld-prime/fluent/qp.MapEntry#1 assert sets-the-Seconds-field: callee_k == "Seconds"
+//@ at call github.com/ipld/go-ipld-prime/fluent/qp.Int#1 assert with-the-value-given: callee_i == seconds
+//@ func data/builder.Permissions
+//@ prop C09
+//@ at call github.com/ipld/go-ipld-prime/fluent/qp.MapEntry#1 assert sets-the-Mode-field: callee_k == "Mode"
+//@ at call github.com/ipld/go-ipld-prime/fluent/qp.Int#1 assert with-the-low-twelve-bits: callee_i == int64(old(mode) & 4095)
+//@ func data/builder.FractionalNanoseconds
+//@ prop C09
+//@ may_panic
+//@ at call github.com/ipld/go-ipld-prime/fluent/qp.MapEntry#1 assert sets-the-FractionalNanoseconds-field: callee_k == "FractionalNanoseconds"
+//@ at call github.com/ipld/go-ipld-prime/fluent/qp.Int#1 assert with-the-value-given: callee_i == int64(nanoseconds) && 0 <= callee_i && callee_i <= 999999999
+//@ func data/builder.BlockSizes
+//@ prop C09 C11
+//@ at call github.com/ipld/go-ipld-prime/fluent/qp.MapEntry#1 assert sets-the-BlockSizes-field: callee_k == "BlockSizes"
+//@ at call github.com/ipld/go-ipld-prime/fluent/qp.List#1 assert one-entry-per-size: callee_sizeHint == int64(len(blockSizes))
+//@ func data/builder.BlockSizes$1
+//@ prop C09 C11
+//@ at call github.com/ipld/go-ipld-prime/fluent/qp.Int#1 assert each-entry-is-that-size: callee_i == int64(bs)
